@@ -201,6 +201,9 @@ func (d *Descriptor) readAsSlice(out Outputter, data []byte) (n int, err error) 
 			if err != nil {
 				return 0, err
 			}
+			if n <= 0 {
+				return 0, fmt.Errorf("corrupt data reading slice entry")
+			}
 			offset += n
 		}
 		return offset, nil
@@ -223,8 +226,7 @@ func (d *Descriptor) readAsSlice(out Outputter, data []byte) (n int, err error) 
 			if s == 0 {
 				continue
 			}
-			end := offset + int(s)
-			if end > len(data) {
+			if s > uint64(len(data)-offset) {
 				return 0, fmt.Errorf("corrupt data reading slice entry %d", i)
 			}
 
@@ -254,6 +256,9 @@ func (d *Descriptor) readAsMapEntry(out Outputter, data []byte) (n int, err erro
 	var offset int
 	for offset < l {
 		wt, index, n := plenccore.ReadTag(data[offset:])
+		if n <= 0 {
+			return 0, fmt.Errorf("invalid field tag in %s", d.Name)
+		}
 		offset += n
 
 		var elt *Descriptor
@@ -284,10 +289,10 @@ func (d *Descriptor) readAsMapEntry(out Outputter, data []byte) (n int, err erro
 				return 0, fmt.Errorf("varuint overflow reading field %d of %s", index, d.Name)
 			}
 			offset += n
-			fl = int(v) + offset
-			if fl > l {
-				return 0, fmt.Errorf("length %d of field %d of %s exceeds data length", fl, index, d.Name)
+			if v > uint64(l-offset) {
+				return 0, fmt.Errorf("length %d of field %d of %s exceeds data length", v, index, d.Name)
 			}
+			fl = int(v) + offset
 		}
 
 		n, err := elt.read(out, data[offset:fl])
@@ -306,6 +311,9 @@ func (d *Descriptor) readAsStruct(out Outputter, data []byte) (n int, err error)
 	var offset int
 	for offset < l {
 		wt, index, n := plenccore.ReadTag(data[offset:])
+		if n <= 0 {
+			return 0, fmt.Errorf("invalid field tag in %s", d.Name)
+		}
 		offset += n
 
 		var elt *Descriptor
@@ -336,10 +344,10 @@ func (d *Descriptor) readAsStruct(out Outputter, data []byte) (n int, err error)
 				return 0, fmt.Errorf("varuint overflow reading field %d of %s", index, d.Name)
 			}
 			offset += n
-			fl = int(v) + offset
-			if fl > l {
-				return 0, fmt.Errorf("length %d of field %d of %s exceeds data length", fl, index, d.Name)
+			if v > uint64(l-offset) {
+				return 0, fmt.Errorf("length %d of field %d of %s exceeds data length", v, index, d.Name)
 			}
+			fl = int(v) + offset
 		}
 
 		out.NameField(elt.Name)
@@ -372,6 +380,9 @@ func (d *Descriptor) readAsJSON(out Outputter, data []byte) (n int, err error) {
 		if s == 0 {
 			continue
 		}
+		if s > uint64(len(data)-offset) {
+			return 0, fmt.Errorf("length %d of slice entry %d exceeds data length", s, i)
+		}
 
 		n, err := d.readJSONObjectKV(out, data[offset:offset+int(s)])
 		if err != nil {
@@ -391,15 +402,21 @@ func (d *Descriptor) readJSONObjectKV(out Outputter, data []byte) (n int, err er
 
 	for offset < len(data) {
 		wt, index, n := plenccore.ReadTag(data[offset:])
+		if n <= 0 {
+			return 0, fmt.Errorf("invalid field tag in JSON entry")
+		}
 		offset += n
 		switch index {
 		case 1:
 			// When using this for reading arrays we simply don't see this index
 			l, n := plenccore.ReadVarUint(data[offset:])
-			if n < 0 {
+			if n <= 0 {
 				return 0, fmt.Errorf("bad length on string field")
 			}
 			offset += n
+			if l > uint64(len(data)-offset) {
+				return 0, fmt.Errorf("bad length on string field. Length %d exceeds data length", l)
+			}
 			var key string
 
 			n, err := StringCodec{}.Read(data[offset:offset+int(l)], unsafe.Pointer(&key), wt)
@@ -410,7 +427,7 @@ func (d *Descriptor) readJSONObjectKV(out Outputter, data []byte) (n int, err er
 			offset += n
 		case 2:
 			v, n := plenccore.ReadVarUint(data[offset:])
-			if n < 0 {
+			if n <= 0 {
 				return 0, fmt.Errorf("invalid map type field")
 			}
 			jType = jsonType(v)
@@ -419,10 +436,13 @@ func (d *Descriptor) readJSONObjectKV(out Outputter, data []byte) (n int, err er
 			switch jType {
 			case jsonTypeString:
 				l, n := plenccore.ReadVarUint(data[offset:])
-				if n < 0 {
+				if n <= 0 {
 					return 0, fmt.Errorf("bad length on string field")
 				}
 				offset += n
+				if l > uint64(len(data)-offset) {
+					return 0, fmt.Errorf("bad length on string field. Length %d exceeds data length", l)
+				}
 				var v string
 				n, err := StringCodec{}.Read(data[offset:offset+int(l)], unsafe.Pointer(&v), wt)
 				if err != nil {
@@ -476,10 +496,13 @@ func (d *Descriptor) readJSONObjectKV(out Outputter, data []byte) (n int, err er
 
 			case jsonTypeNumber:
 				l, n := plenccore.ReadVarUint(data[offset:])
-				if n < 0 {
+				if n <= 0 {
 					return 0, fmt.Errorf("bad length on JSON number field")
 				}
 				offset += n
+				if l > uint64(len(data)-offset) {
+					return 0, fmt.Errorf("bad length on JSON number field. Length %d exceeds data length", l)
+				}
 				var v json.Number
 				n, err := StringCodec{}.Read(data[offset:offset+int(l)], unsafe.Pointer(&v), wt)
 				if err != nil {
